@@ -47,6 +47,7 @@ type c06wCfg struct {
 	conns     []c06wConnCfg
 	blockPub  bool
 	withClose bool // Swarm.Close is one of the driver's stimuli
+	withClose2 bool // a second, overlapping Swarm.Close from another goroutine (issued after the first)
 }
 
 func c06wB(x bool) int64 {
@@ -61,11 +62,11 @@ func (c *c06wCfg) meta(mode int64) []int64 {
 	for _, k := range c.conns {
 		m = append(m, int64(k.peer), c06wB(k.lim), c06wB(k.proxy), c06wB(k.closeIt), int64(k.connAct), c06wB(k.blockConn), c06wB(k.blockDisc), c06wB(k.blockClose))
 	}
-	return append(m, c06wB(c.blockPub), c06wB(c.withClose))
+	return append(m, c06wB(c.blockPub), c06wB(c.withClose), c06wB(c.withClose2))
 }
 
 func c06wCfgFromMeta(m []int64) (int64, *c06wCfg, []int64) {
-	if len(m) < 2 || m[1] < 0 || len(m) < 2+8*int(m[1])+2 {
+	if len(m) < 2 || m[1] < 0 || len(m) < 2+8*int(m[1])+3 {
 		return 0, nil, nil
 	}
 	c := &c06wCfg{}
@@ -74,8 +75,8 @@ func c06wCfgFromMeta(m []int64) (int64, *c06wCfg, []int64) {
 		c.conns = append(c.conns, c06wConnCfg{peer: int(f[0]), lim: f[1] != 0, proxy: f[2] != 0, closeIt: f[3] != 0, connAct: int(f[4]), blockConn: f[5] != 0, blockDisc: f[6] != 0, blockClose: f[7] != 0})
 	}
 	f := m[2+8*int(m[1]):]
-	c.blockPub, c.withClose = f[0] != 0, f[1] != 0
-	return m[0], c, f[2:]
+	c.blockPub, c.withClose, c.withClose2 = f[0] != 0, f[1] != 0, f[2] != 0
+	return m[0], c, f[3:]
 }
 
 type c06wGate struct {
@@ -97,6 +98,7 @@ type c06wRun struct {
 	closeRq []bool
 	nextAdd int
 	closeCalled bool
+	close2Called bool
 	blocked []*c06wGate
 	outstanding atomic.Int64
 	lastPub map[int]network.Connectedness
@@ -297,6 +299,19 @@ func (r *c06wRun) doSwarmClose() {
 	}()
 }
 
+func (r *c06wRun) doSwarmClose2() {
+	r.mu.Lock()
+	r.close2Called = true
+	r.mu.Unlock()
+	r.outstanding.Add(1)
+	go func() {
+		defer r.outstanding.Add(-1)
+		r.rec(42, 0, 0, 0)
+		r.s.Close()
+		r.rec(43, 0, 0, 0)
+	}()
+}
+
 func (r *c06wRun) release(g *c06wGate) {
 	r.mu.Lock()
 	for j, x := range r.blocked {
@@ -333,6 +348,9 @@ func (r *c06wRun) enabled() []func() {
 	}
 	if r.cfg.withClose && !r.closeCalled {
 		acts = append(acts, r.doSwarmClose)
+	}
+	if r.cfg.withClose2 && r.closeCalled && !r.close2Called {
+		acts = append(acts, r.doSwarmClose2)
 	}
 	for _, g := range r.blocked {
 		g := g
@@ -524,6 +542,56 @@ func c06wLever(t *testing.T, out *verifh.Out, cfg *c06wCfg, closeDuring bool) []
 	return line
 }
 
+// mode C (real scheduler; a goroutine waiting on sync.Once is not durably blocked, so no synctest here): all conns are
+// admitted, Swarm.Close #1 parks behind gated callbacks / transport Close, then Swarm.Close #2 is called from another
+// goroutine; the gates are released only after #2 had time to return early.
+func c06wTwoClose(t *testing.T, out *verifh.Out, cfg *c06wCfg) []int64 {
+	r := c06wNewRun(t, cfg)
+	n := len(cfg.conns)
+	wait := func(cond func() bool) bool {
+		deadline := time.Now().Add(20 * time.Second)
+		for time.Now().Before(deadline) {
+			if cond() {
+				return true
+			}
+			time.Sleep(time.Millisecond)
+		}
+		return cond()
+	}
+	relAll := func() {
+		r.mu.Lock()
+		gs := append([]*c06wGate{}, r.blocked...)
+		r.mu.Unlock()
+		for _, g := range gs {
+			r.release(g)
+		}
+	}
+	nblocked := func() int { r.mu.Lock(); defer r.mu.Unlock(); return len(r.blocked) }
+	for i := 0; i < n; i++ {
+		i := i
+		r.doAdd(i)
+		// a gated Connected is released at once: the interesting gates are on the way down
+		wait(func() bool {
+			r.mu.Lock()
+			done := r.addRet[i] != 0
+			r.mu.Unlock()
+			if !done {
+				relAll()
+			}
+			return done
+		})
+	}
+	wait(func() bool { relAll(); return nblocked() == 0 })
+	r.doSwarmClose()
+	wait(func() bool { return nblocked() > 0 || r.outstanding.Load() == 0 })
+	r.doSwarmClose2()
+	time.Sleep(60 * time.Millisecond)
+	ok := wait(func() bool { relAll(); return r.outstanding.Load() == 0 })
+	line := r.finish(out, 2, nil, !ok)
+	r.s.Close()
+	return line
+}
+
 func c06wExplore(t *testing.T, out *verifh.Out, cfg *c06wCfg, maxRuns int, tag string) {
 	var prefix []int
 	for runs := 1; ; runs++ {
@@ -626,6 +694,18 @@ func TestVerifC06Sw(t *testing.T) {
 		}
 		c06wRandom(t, out, rnd, cfg, 2, "random")
 	}
+	// F6 (real scheduler): two overlapping Swarm.Close calls, the first parked behind a gated Disconnected / subscriber /
+	// transport Close
+	for m := 0; m < 4; m++ {
+		for n := 1; n <= 2; n++ {
+			cfg := &c06wCfg{withClose: true, withClose2: true, blockPub: m == 2}
+			for i := 0; i < n; i++ {
+				cfg.conns = append(cfg.conns, c06wConnCfg{peer: i, blockDisc: m == 0 || m == 3, blockClose: m == 1 || m == 3})
+			}
+			out.Case(c06wTwoClose(t, out, cfg))
+			out.Cover("sw.runs.twoclose")
+		}
+	}
 	// F5 (real scheduler): addConn stalled right after the insert into the conn table, racing Swarm.Close / Conn.Close
 	reps := 2
 	if thorough {
@@ -668,6 +748,10 @@ func TestVerifC06SwReplay(t *testing.T) {
 	}
 	if mode == 1 {
 		out.Case(c06wLever(t, out, cfg, cfg.withClose))
+		return
+	}
+	if mode == 2 {
+		out.Case(c06wTwoClose(t, out, cfg))
 		return
 	}
 	line, _, _ := c06wExecute(t, out, cfg, 300, func(step, n int) int {
